@@ -12,6 +12,7 @@ import EkwVerif.Lemmas.CtrlInv4C2
 import EkwVerif.Lemmas.CtrlInv4C3
 import EkwVerif.Lemmas.CtrlInv4XStep
 import EkwVerif.Lemmas.CtrlInvTStep
+import EkwVerif.Lemmas.CtrlInvPStep
 
 namespace EkwVerif.Ctrl
 
@@ -23,14 +24,15 @@ structure InvAll (f : Sem) (j : Job) (cl : Cluster) (s : Sys) : Prop where
   h4 : Inv4 j cl s
   h4x : Inv4X j s
   hT : InvT j s
+  hP : InvP j s
 
 theorem invAll_init (f : Sem) (j : Job) (cl : Cluster) (wf : WF j cl) : InvAll f j cl (Sys.init j cl) :=
   ⟨inv1_init j cl wf.workersNodup, i2a_init j cl wf, i2b_inv2x_init j cl, i3_init f j cl wf, i4a_init j cl wf,
-    i4x_init j cl wf, iT_init j cl⟩
+    i4x_init j cl wf, iT_init j cl, iP_init j cl wf⟩
 
 theorem inv2_step (f : Sem) (j : Job) (cl : Cluster) (s s' : Sys) (st : Step) (wf : WF j cl)
     (h : InvAll f j cl s) (hs : step f j cl s st = some s') : Inv2 j cl s' := by
-  obtain ⟨h1, h2, h2x, h3, h4, h4x, hT⟩ := h
+  obtain ⟨h1, h2, h2x, h3, h4, h4x, hT, hP⟩ := h
   cases st with
   | enter => exact i2b_step_enter f j cl s s' wf h1 h2 h3 h4 hs
   | assign a => exact i2a_step_assign f j cl s s' a wf h1 h2 h3 h4 hs
@@ -42,13 +44,13 @@ theorem inv2_step (f : Sem) (j : Job) (cl : Cluster) (s s' : Sys) (st : Step) (w
   | flushP1 => exact i2b_step_flushP1 f j cl s s' wf h1 h2 h3 h4 hs
   | endFlush => exact i2b_step_endFlush f j cl s s' wf h1 h2 h3 h4 hs
   | recv evs => exact i2b_step_recv f j cl s s' wf evs h1 h2 h3 h4 hs
-  | notify1 => exact i2b_step_notify1 f j cl s s' wf h1 h2 h3 h4 h2x hs
+  | notify1 => exact i2b_step_notify1 f j cl s s' wf h1 h2 h3 h4 h2x hP hs
   | endNotify => exact i2b_step_endNotify f j cl s s' wf h1 h2 h3 h4 hs
   | env es => exact i2a_step_env f j cl s s' es wf h1 h2 h3 h4 h2x hs
 
 theorem inv4_step (f : Sem) (j : Job) (cl : Cluster) (s s' : Sys) (st : Step) (wf : WF j cl)
     (h : InvAll f j cl s) (hs : step f j cl s st = some s') : Inv4 j cl s' := by
-  obtain ⟨h1, h2, h2x, h3, h4, h4x, hT⟩ := h
+  obtain ⟨h1, h2, h2x, h3, h4, h4x, hT, hP⟩ := h
   cases st with
   | enter => exact i4a_step_enter f j cl s s' wf h1 h2 h3 h4 hs
   | assign a => exact i4a_step_assign f j cl s s' a wf h1 h2 h3 h4 hT hs
@@ -66,7 +68,7 @@ theorem inv4_step (f : Sem) (j : Job) (cl : Cluster) (s s' : Sys) (st : Step) (w
 
 theorem inv4x_step (f : Sem) (j : Job) (cl : Cluster) (s s' : Sys) (st : Step) (wf : WF j cl)
     (h : InvAll f j cl s) (hs : step f j cl s st = some s') : Inv4X j s' := by
-  obtain ⟨h1, h2, h2x, h3, h4, h4x, hT⟩ := h
+  obtain ⟨h1, h2, h2x, h3, h4, h4x, hT, hP⟩ := h
   cases st with
   | enter => exact i4x_step_enter f j cl s s' wf h1 h2 h3 h4 hT h2x h4x hs
   | assign a => exact i4x_step_assign f j cl s s' a wf h1 h2 h3 h4 hT h2x h4x hs
@@ -87,7 +89,7 @@ theorem invAll_step (f : Sem) (j : Job) (cl : Cluster) (s s' : Sys) (st : Step) 
   ⟨inv1_step f j cl s s' st h.h1 hs, inv2_step f j cl s s' st wf h hs,
     i2b_inv2x_step f j cl s s' st h.h1 h.h4 h.h2x hs, i3_step f j cl s s' st wf h.h1 h.h2 h.h3 h.h4 hs,
     inv4_step f j cl s s' st wf h hs, inv4x_step f j cl s s' st wf h hs,
-    iT_step f j cl s s' st wf h.h1 h.h2 h.h4 h.hT hs⟩
+    iT_step f j cl s s' st wf h.h1 h.h2 h.h4 h.hT hs, iP_step f j cl s s' st wf h.h1 h.h2 h.h2x h.hP hs⟩
 
 /-- **The system invariant holds in every reachable state.** -/
 theorem invAll_reachable (f : Sem) (j : Job) (cl : Cluster) (wf : WF j cl) (s : Sys)
